@@ -10,7 +10,7 @@ the state of its monitor automaton (`Spec.hstep`), `none` being the error sink. 
 enter/exit pairs that always return (trusted base).
 -/
 namespace CoreBGP.Props.C01
-open CoreBGP CoreBGP.Model
+open CoreBGP CoreBGP.Model CoreBGP.Lemmas
 
 def isCallback : Label → Bool
   | .onEstablished _ | .onClose _ | .handler _ => true
@@ -18,32 +18,60 @@ def isCallback : Label → Bool
 
 /-- at most one FSM is between "OnEstablished entered" and "OnClose returned" -/
 theorem mutex (d p : Bool) (s : PState) (h : PReach d p s) : ¬ (s.fo.inEst = true ∧ s.fi.inEst = true) := by
-  sorry
+  have hi := pinv_reachable h
+  rintro ⟨ho, hin⟩
+  have := est_excl hi.fo_ok hi.fi_ok hi.mutex ho
+  rw [hin] at this
+  cases this
 
 /-- the manager never records both FSMs as Established -/
 theorem not_both_established (d p : Bool) (s : PState) (h : PReach d p s) :
     ¬ (s.stO = .established ∧ s.stI = .established) := by
-  sorry
+  exact (pinv_reachable h).mutex
 
 /-- an FSM is inside Established only after the manager echoed that transition -/
 theorem in_est_recorded (d p : Bool) (s : PState) (h : PReach d p s) (i : Dir) :
     (s.f i).inEst = true → s.st i = .established := by
-  sorry
+  have hi := pinv_reachable h
+  intro he
+  cases i
+  · exact hi.fo_ok.run_st _ (hi.fo_ok.inEst_run he)
+  · exact hi.fi_ok.run_st _ (hi.fi_ok.inEst_run he)
 
 /-- the per-peer callback history is a prefix of `(E⁺E⁻(H⁺H⁻)*C⁺C⁻)*`: the monitor never reaches its
 error sink, and its state is `up` exactly while some FSM is inside its session -/
 theorem history_well_formed (d p : Bool) (s : PState) (h : PReach d p s) :
     s.hist = some (if s.fo.inEst || s.fi.inEst then .up else .idle) := by
-  sorry
+  exact (pinv_reachable h).hist_ok
 
 /-- by the time `peer.stop` has returned (Close / DeletePeer), every OnEstablished is matched by its
 OnClose and no callback can start any more -/
 theorem matched_at_stop (d p : Bool) (s : PState) (h : PReach d p s) (hd : s.pdone = true) :
     s.hist = some .idle ∧ ∀ l s', (l, s') ∈ next s → isCallback l = false := by
-  sorry
+  have hi := pinv_reachable h
+  obtain ⟨htodo, hpo, hpi⟩ := hi.done hd
+  have ho := hi.fo_ok.empty hpo
+  have hin := hi.fi_ok.empty hpi
+  refine ⟨?_, ?_⟩
+  · have := hi.hist_ok
+    rw [hi.fo_ok.inEst_false_of_pc (by simp [ho]), hi.fi_ok.inEst_false_of_pc (by simp [hin])] at this
+    simpa using this
+  · intro l s' hm
+    rcases mem_next hm with ⟨-, h⟩ | ⟨ins, rest, ht', -⟩ | h | h | rfl | h
+    · simp [pMain, hd] at h
+    · rw [htodo] at ht'
+      cases ht'
+    · rw [fSteps_absent (i := .out) ho] at h
+      cases h
+    · rw [fSteps_absent (i := .inn) hin] at h
+      cases h
+    · rfl
+    · obtain ⟨i, m, rfl⟩ := rsend_label h
+      rfl
 
 -- non-vacuity: a reachable state in which the outbound session is up
 example : ∃ s, PReach true false s ∧ s.fo.inEst = true := by
-  sorry
+  exact exists_of_follow (·.fo.inEst)
+    [0, 0, 0, 0, 1, 0, 0, 0, 0, 1, 0, 0, 0, 0, 3, 2, 0, 0, 0, 0, 8, 3, 0, 0, 0, 0, 0, 1] (by decide)
 
 end CoreBGP.Props.C01
